@@ -119,7 +119,11 @@ func (p *Prog) contexts() *ctxInfo {
 	for _, r := range ctxRules {
 		f := p.lookupFunc(r.Fn)
 		if f == nil {
-			ci.missing = append(ci.missing, r.Fn)
+			// a rule that only says "runs in its caller's context" states the default for a function the
+			// call graph sees through: losing it (the visitor was replaced by another construction) loses nothing
+			if !(r.Ctx == 0 && r.Inline) {
+				ci.missing = append(ci.missing, r.Fn)
+			}
 			continue
 		}
 		if rules[f] == nil {
@@ -829,7 +833,7 @@ func (p *Prog) closuresHeld(v ssa.Value, depth int) []*ssa.Function {
 			}
 		}
 	}
-	switch x := v.(type) {
+	switch x := stripConv(v).(type) {
 	case *ssa.UnOp:
 		fromCell(x.X)
 	case *ssa.Alloc, *ssa.FreeVar:
